@@ -588,7 +588,9 @@ func (r *failReader) Read(p []byte) (int, error) {
 		// the rest of the body is a second late in coming (a streamed reply): the read waits
 		// for it like a read from a connection - until the data, the end of the context or Close
 		r.paused = true
-		tm := time.NewTimer(time.Second)
+		// just short of a second, so that the arrival never coincides with a whole-second
+		// event of the scenario (simultaneous events have no defined order in the bubble)
+		tm := time.NewTimer(time.Second - time.Millisecond)
 		select {
 		case <-tm.C:
 		case <-r.ctx.Done():
